@@ -142,7 +142,7 @@ func c02Cases(env *Env, rep *Report) []c02Case {
 		out = append(out, c02Case{Name: name, Class: class, Cookie: cookie, IdP: idp})
 	}
 	add("valid", "minted", valid, "honour")
-	for _, m := range []string{"unknown", "revoked", "error500", "transport"} {
+	for _, m := range []string{"unknown", "revoked", "error500", "transport", "slow-unknown"} {
 		add("idp", "minted/idp="+m, valid, m)
 	}
 	// minted lifetime
@@ -286,6 +286,9 @@ func c02Cases(env *Env, rep *Report) []c02Case {
 func c02Direct(c c02Case) (accepted bool, pan string) {
 	idp := InstallIdP()
 	idp.Mode = c.IdP
+	if c.IdP == "slow-unknown" {
+		defer vclock.Reset()
+	}
 	if c.IdP == "revoked" {
 		idp.Mode = "honour"
 		idp.Revoked["at-alice"] = true
@@ -304,6 +307,9 @@ func c02Direct(c c02Case) (accepted bool, pan string) {
 func c02Proc(c c02Case, rep *Report) (status uint32, answered bool, ended bool, pan string, nextAnswered bool) {
 	idp := InstallIdP()
 	idp.Mode = c.IdP
+	if c.IdP == "slow-unknown" {
+		defer vclock.Reset()
+	}
 	if c.IdP == "revoked" {
 		idp.Mode = "honour"
 		idp.Revoked["at-alice"] = true
@@ -328,7 +334,7 @@ func c02Proc(c c02Case, rep *Report) (status uint32, answered bool, ended bool, 
 }
 
 func c02(env *Env, rep *Report) {
-	rep.Rule = "from a token minted by the real GeneratePAAToken in this run: every single-character substitution at every position with each of 67 characters; every single-bit flip of the decoded header, payload and signature; every truncation; segment counts 0..6 and arbitrary strings; re-signing (alg none unsecured / with MAC, HS384, HS512, HS256 under 5 other keys, RS256, embedded JWK, crit / b64 headers); claims signed with the right key (8 issuers, exp x nbf and exp x iat over {absent, now-1h, now-70s, now-50s, now, now+50s, now+70s, now+1h}, odd exp types, unknown / empty access token); JSON flattened / general serialisation and nested JWS; x identity-provider behaviours {honours, unknown, revoked, 500, transport error}. " +
+	rep.Rule = "from a token minted by the real GeneratePAAToken in this run: every single-character substitution at every position with each of 67 characters; every single-bit flip of the decoded header, payload and signature; every truncation; segment counts 0..6 and arbitrary strings; re-signing (alg none unsecured / with MAC, HS384, HS512, HS256 under 5 other keys, RS256, embedded JWK, crit / b64 headers); claims signed with the right key (8 issuers, exp x nbf and exp x iat over {absent, now-1h, now-70s, now-50s, now, now+50s, now+70s, now+1h}, odd exp types, unknown / empty access token); JSON flattened / general serialisation and nested JWS; x identity-provider behaviours {honours, unknown, revoked, 500, transport error, answers 'unknown' only after every time-out of the caller has fired}. " +
 		"Every string goes to security.CheckPAACookie; every string of the non-mutation classes and every 7th mutation (thorough: all) additionally travels UTF-16 encoded in a TUNNEL_CREATE packet through the real Processor wired as main.go does. Plus, after another connection was accepted with the minted cookie, TUNNEL_CREATE packets that announce a cookie of that length (half, +-2, double) and carry none or only a prefix of its bytes (3 transports). Plus histories in one process: the same minted cookie presented repeatedly while the IdP changes between honouring, revoking, failing and recovering (7 sequences, checker and Processor): every presentation must follow the IdP's verdict at that moment. Oracle (three-valued, computed with crypto/hmac over the raw text): must-refuse strings must be refused (at the Processor: status E_PROXY_COOKIE_AUTHENTICATION_ACCESS_DENIED, tunnel ended, next packet unanswered), the minted token must be accepted, the rest is unspecified. distinct_nontrivial = distinct cookie strings x IdP behaviours."
 	rep.Assumptions = append(rep.Assumptions, "expiry boundary cases keep 10 s distance from the 60 s leeway (no sub-second wall-clock oracle)", "a signature segment that base64-decodes to the same 32 bytes is the same signature (classified by decoded value)",
 		"identity provider is a scripted http.RoundTripper behind the real go-oidc provider object")
